@@ -379,6 +379,10 @@ func runC02(c *Ctx) {
 					c.Ok("index-guarded", key, in.Pos(), "a dominating length test covers the index")
 					continue
 				}
+				if why := c.indexGuardedIP(fn, in, base, k.Int64()); why != "" {
+					c.Ok("index-guarded", key, in.Pos(), why)
+					continue
+				}
 				if recovers {
 					c.Ok("index-guarded", key, in.Pos(), "inside a function that recovers")
 					continue
@@ -673,6 +677,121 @@ func (c *Ctx) indexGuarded(fn *ssa.Function, at ssa.Instruction, base ssa.Value,
 	}
 	_ = bt
 	return false
+}
+
+// indexGuardedIP: the length guard lives in another function of the module —
+// (A) the slice is the result of a helper whose every successful return is dominated by a length test covering the
+// index, and the read happens only after the helper's error was found nil; or
+// (B) the slice is a parameter of an unexported function all of whose callers pass an argument that is guarded at
+// the call site, directly or by the true edge of a predicate whose every true return is behind such a length test.
+func (c *Ctx) indexGuardedIP(fn *ssa.Function, at ssa.Instruction, base ssa.Value, idx int64) string {
+	inModule := func(h *ssa.Function) bool {
+		return h != nil && len(h.Blocks) > 0 && h.Pkg != nil && strings.HasPrefix(h.Pkg.Pkg.Path(), modPath)
+	}
+	// (A)
+	if ex, ok := base.(*ssa.Extract); ok {
+		if call, ok := ex.Tuple.(*ssa.Call); ok {
+			h := call.Call.StaticCallee()
+			if inModule(h) {
+				ei := errorResultIndex(h)
+				okAll, n := true, 0
+				for _, b := range h.Blocks {
+					r, isR := b.Instrs[len(b.Instrs)-1].(*ssa.Return)
+					if !isR || ex.Index >= len(r.Results) {
+						continue
+					}
+					if ei >= 0 && ei < len(r.Results) && definitelyNonNilErr(returnedValue(r, ei), b, 0) {
+						continue
+					}
+					n++
+					if !c.indexGuarded(h, r, returnedValue(r, ex.Index), idx) {
+						okAll = false
+					}
+				}
+				if okAll && n > 0 && ei >= 0 {
+					errD := ""
+					for _, u := range referrersOf(call) {
+						if e2, ok := u.(*ssa.Extract); ok && e2.Index == ei {
+							errD = desc(e2)
+						}
+					}
+					v := c.mustPass(fn, []ssa.Instruction{at}, func(f string) bool { return errD != "" && f == errD+" == nil" })
+					if v[0].OK {
+						return "every successful return of " + h.Name() + " is behind a length test covering the index, and its error was found nil"
+					}
+				}
+			}
+		}
+	}
+	// (B)
+	if p, ok := base.(*ssa.Parameter); ok && fn.Object() != nil && !fn.Object().Exported() && fn.Parent() == nil {
+		pi := -1
+		for i, q := range fn.Params {
+			if q == p {
+				pi = i
+			}
+		}
+		cs := callersInPkg(fn)
+		if pi < 0 || len(cs) == 0 {
+			return ""
+		}
+		for _, ci := range cs {
+			if pi >= len(ci.Common().Args) {
+				return ""
+			}
+			arg := ci.Common().Args[pi]
+			caller := ci.Parent()
+			if c.indexGuarded(caller, ci, arg, idx) {
+				continue
+			}
+			// a predicate over the same argument
+			okPred := false
+			for _, cj := range allCalls(caller) {
+				g := cj.Common().StaticCallee()
+				if !inModule(g) || cj.Value() == nil {
+					continue
+				}
+				if bt, isB := cj.Value().Type().Underlying().(*types.Basic); !isB || bt.Kind() != types.Bool {
+					continue
+				}
+				gi := -1
+				for i, a := range cj.Common().Args {
+					if a == arg || trace(a) == trace(arg) {
+						gi = i
+					}
+				}
+				if gi < 0 || gi >= len(g.Params) {
+					continue
+				}
+				want := "T:" + desc(cj.Value())
+				if v := c.mustPass(caller, []ssa.Instruction{ci}, func(f string) bool { return f == want }); !v[0].OK {
+					continue
+				}
+				trueOK, nTrue := true, 0
+				for _, b := range g.Blocks {
+					r, isR := b.Instrs[len(b.Instrs)-1].(*ssa.Return)
+					if !isR || len(r.Results) != 1 {
+						continue
+					}
+					if k, isK := r.Results[0].(*ssa.Const); isK && desc(k) == "false" {
+						continue
+					}
+					nTrue++
+					if !c.indexGuarded(g, r, g.Params[gi], idx) {
+						trueOK = false
+					}
+				}
+				if trueOK && nTrue > 0 {
+					okPred = true
+				}
+			}
+			if !okPred {
+				return ""
+			}
+		}
+		return "every caller passes a slice whose length was tested (at the call site or by a predicate that is true only behind the test)"
+	}
+	return ""
 }
 
 // assertGuardedBySwitch: x.(T) is dominated by the T edge of a comma-ok assertion of the same operand to the same type.
